@@ -1,7 +1,15 @@
 // Driver for C14: runs one configuration <<program A, program B, cold>> chosen by TLC from Threads.tla on the real
 // library with N threads (built with -fsanitize=thread).  ThreadSanitizer's verdict is read by the check script from
 // the exit status / stderr; this program reports whether every concurrent call returned, bit for bit, what the same
-// call returns when executed alone.
+// call returns when executed alone, and which of the library's singleton accessors were called before the threads
+// started ("pre") and by the threads ("used").  It decides nothing.
+//
+// Inputs: a program is a function of (thread number t, iteration i); thread t runs f(t, 0), f(t, 1), ... so that no two
+// threads evaluate the same point at the same time, and the reference values are f(t, i) executed alone afterwards.
+//
+// Singleton accessors are observed with the linker: the check script links this driver with -Wl,--wrap=<accessor> for
+// every accessor declared in the headers, so that every call from another object file (this driver, header inline
+// code, other library sources) passes through the __wrap_ functions below.
 #include "trace.hpp"
 #include <GeographicLib/Geodesic.hpp>
 #include <GeographicLib/GeodesicExact.hpp>
@@ -50,6 +58,38 @@ using namespace GeographicLib;
 using namespace std;
 typedef vector<double> V;
 
+// ---- observation of the singleton accessors (linker --wrap) ----
+// g_phase is written by main() only while no other thread exists (thread creation / join order the accesses);
+// the touch masks are relaxed atomics, which ThreadSanitizer does not treat as synchronisation.
+static int g_phase = 0;                       // 0: construction and warm-up in main, 1: threads running, 2: solo reference
+static atomic<unsigned> g_touch[3];
+static const char* const ACC[] = {
+  "Geodesic::WGS84", "GeodesicExact::WGS84", "Rhumb::WGS84", "TransverseMercator::UTM", "TransverseMercatorExact::UTM",
+  "PolarStereographic::UPS", "LambertConformalConic::Mercator", "AlbersEqualArea::CylindricalEqualArea",
+  "AlbersEqualArea::AzimuthalEqualAreaNorth", "AlbersEqualArea::AzimuthalEqualAreaSouth", "Geocentric::WGS84", "Ellipsoid::WGS84",
+  "NormalGravity::WGS84", "NormalGravity::GRS80", "AuxLatitude::WGS84", "OSGB::OSGBTM", "OSGB::northoffset" };
+static const int NACC = int(sizeof(ACC) / sizeof(ACC[0]));
+static inline void note(int idx) { unsigned b = 1u << idx; if (!(g_touch[g_phase].load(memory_order_relaxed) & b)) g_touch[g_phase].fetch_or(b, memory_order_relaxed); }
+#define WRAPREF(sym, idx) extern "C" const void* __real_##sym(); extern "C" const void* __wrap_##sym() { note(idx); return __real_##sym(); }
+WRAPREF(_ZN13GeographicLib8Geodesic5WGS84Ev, 0)
+WRAPREF(_ZN13GeographicLib13GeodesicExact5WGS84Ev, 1)
+WRAPREF(_ZN13GeographicLib5Rhumb5WGS84Ev, 2)
+WRAPREF(_ZN13GeographicLib18TransverseMercator3UTMEv, 3)
+WRAPREF(_ZN13GeographicLib23TransverseMercatorExact3UTMEv, 4)
+WRAPREF(_ZN13GeographicLib18PolarStereographic3UPSEv, 5)
+WRAPREF(_ZN13GeographicLib21LambertConformalConic8MercatorEv, 6)
+WRAPREF(_ZN13GeographicLib15AlbersEqualArea20CylindricalEqualAreaEv, 7)
+WRAPREF(_ZN13GeographicLib15AlbersEqualArea23AzimuthalEqualAreaNorthEv, 8)
+WRAPREF(_ZN13GeographicLib15AlbersEqualArea23AzimuthalEqualAreaSouthEv, 9)
+WRAPREF(_ZN13GeographicLib10Geocentric5WGS84Ev, 10)
+WRAPREF(_ZN13GeographicLib9Ellipsoid5WGS84Ev, 11)
+WRAPREF(_ZN13GeographicLib13NormalGravity5WGS84Ev, 12)
+WRAPREF(_ZN13GeographicLib13NormalGravity5GRS80Ev, 13)
+WRAPREF(_ZN13GeographicLib11AuxLatitude5WGS84Ev, 14)
+WRAPREF(_ZN13GeographicLib4OSGB6OSGBTMEv, 15)
+extern "C" double __real__ZN13GeographicLib4OSGB18computenorthoffsetEv();
+extern "C" double __wrap__ZN13GeographicLib4OSGB18computenorthoffsetEv() { note(16); return __real__ZN13GeographicLib4OSGB18computenorthoffsetEv(); }
+
 // ---- synthetic model files (formats: doc sections magneticformat / gravityformat) ----
 static void put_i32(string& f, int v) { for (int i = 0; i < 4; ++i) f.push_back(char(((unsigned) v) >> (8 * i))); }
 static void put_f64(string& f, double v) { uint64_t u = vt::bits(v); for (int i = 0; i < 8; ++i) f.push_back(char(u >> (8 * i))); }
@@ -72,18 +112,21 @@ static void write_models(const string& dir) {
 }
 
 // ---- shared objects (constructed in main, before any thread starts) ----
+// Nothing here may call a singleton accessor (not even through a defaulted "earth" argument): in a cold configuration
+// the first touch of every singleton must be made by the threads.  The "pre" field of the record shows what main() touched.
+static const double WA = 6378137.0, WF = 1 / 298.257223563;
 struct Shared {
-  Geodesic geod{6378137.0, 1 / 298.257223563}; GeodesicExact geodex{6378137.0, 1 / 298.257223563}; Geodesic geodx{6378137.0, 1 / 298.257223563, true};
+  Geodesic geod{WA, WF}; GeodesicExact geodex{WA, WF}; Geodesic geodx{WA, WF, true}; Geocentric geoc{WA, WF};
   GeodesicLine line; GeodesicLineExact lineex;
-  Rhumb rhumb{6378137.0, 1 / 298.257223563, false}; Rhumb rhumbx{6378137.0, 1 / 298.257223563, true}; RhumbLine rline;
-  TransverseMercator tm{6378137.0, 1 / 298.257223563, 0.9996}; LambertConformalConic lcc{6378137.0, 1 / 298.257223563, 40.0, 50.0, 1.0};
-  AlbersEqualArea alb{6378137.0, 1 / 298.257223563, 40.0, 50.0, 1.0}; LocalCartesian local{48.0, 2.0, 100.0};
-  AuxLatitude aux{6378137.0, 1 / 298.257223563}; DAuxLatitude daux{6378137.0, 1 / 298.257223563}; EllipticFunction ef{0.3, 0.2};
+  Rhumb rhumb{WA, WF, false}; Rhumb rhumbx{WA, WF, true}; RhumbLine rline;
+  TransverseMercator tm{WA, WF, 0.9996}; LambertConformalConic lcc{WA, WF, 40.0, 50.0, 1.0};
+  AlbersEqualArea alb{WA, WF, 40.0, 50.0, 1.0}; LocalCartesian local{48.0, 2.0, 100.0, geoc};
+  AuxLatitude aux{WA, WF}; AuxLatitude auxb{AuxLatitude::axes(WA, 6356752.314245)}; DAuxLatitude daux{WA, WF}; EllipticFunction ef{0.3, 0.2};
   vector<double> C, S; unique_ptr<SphericalHarmonic> sh; unique_ptr<CircularEngine> circ; unique_ptr<Geoid> geoid, geoidl;
-  AzimuthalEquidistant azeq{Geodesic::WGS84()}; Gnomonic gno{Geodesic::WGS84()}; CassiniSoldner cas{40.0, 10.0, Geodesic::WGS84()};
+  AzimuthalEquidistant azeq{geod}; Gnomonic gno{geod}; CassiniSoldner cas{40.0, 10.0, geod};
   DST dst{48};
-  PolarStereographic ps{6378137.0, 1 / 298.257223563, 0.994}; TransverseMercatorExact tmx{6378137.0, 1 / 298.257223563, 0.9996};
-  Ellipsoid ell{6378137.0, 1 / 298.257223563}; NormalGravity ng{6378137.0, 3.986004418e14, 7.292115e-5, 1 / 298.257223563, true};
+  PolarStereographic ps{WA, WF, 0.994}; TransverseMercatorExact tmx{WA, WF, 0.9996};
+  Ellipsoid ell{WA, WF}; NormalGravity ng{WA, 3.986004418e14, 7.292115e-5, WF, true};
   unique_ptr<GravityModel> gm; unique_ptr<MagneticModel> mm; unique_ptr<GravityCircle> gc; unique_ptr<MagneticCircle> mc;
   Shared(const string& dir) : line(geod.Line(40.6, -73.8, 53.5)), lineex(geodex.Line(40.6, -73.8, 53.5)), rline(rhumb.Line(40.6, -73.8, 53.5)) {
     int N = 8; vt::Rng g(7); for (int i = 0; i < (N + 1) * (N + 2) / 2; ++i) C.push_back(g.uni(-1, 1)); for (int i = 0; i < N * (N + 1) / 2; ++i) S.push_back(g.uni(-1, 1));
@@ -93,85 +136,310 @@ struct Shared {
     { ofstream f((dir + "/tsgeoid.pgm").c_str(), ios::binary); f << "P5\n# Offset -108\n# Scale 0.25\n36 19\n65535\n";
       for (int i = 0; i < 36 * 19; ++i) { unsigned v = unsigned((i * 7919) % 5000); f.put(char(v >> 8)); f.put(char(v & 255)); } }
     geoid.reset(new Geoid("tsgeoid", dir, true, true)); geoidl.reset(new Geoid("tsgeoid", dir, false, true));
-    write_models(dir); gm.reset(new GravityModel("tsg", dir)); mm.reset(new MagneticModel("tsm", dir));
+    write_models(dir); gm.reset(new GravityModel("tsg", dir)); mm.reset(new MagneticModel("tsm", dir, geoc));
     gc.reset(new GravityCircle(gm->Circle(30.0, 1000.0, GravityModel::ALL))); mc.reset(new MagneticCircle(mm->Circle(2003.0, 30.0, 1000.0)));
   }
 };
 static Shared* G = nullptr;
+static int NT = 3;           // number of threads
+static double SD = 0;        // seed-dependent offset in [0, 0.1) added to inputs where no special case is intended
+
+// ---- helpers to build the observation vectors ----
+static void pushs(V& r, const string& s) { r.push_back(double(s.size())); for (unsigned char c : s) r.push_back(double(c)); }
+static void pusha(V& r, const AuxAngle& a) { r.push_back(a.y()); r.push_back(a.x()); }
+static void cat(V& r, const V& x) { r.insert(r.end(), x.begin(), x.end()); }
+
+// ---- solver families, one lattice of inputs by branch class (k = input index, distinct for every (thread, iteration)) ----
+// Inverse: ordinary, nearly antipodal (astroid starting point), meridional, equatorial, equatorial beyond the
+// conjugate point, short, exactly antipodal, pole to pole, near a pole; reduced output masks.  Direct: distance and
+// arc mode, LONG_UNROLL, reduced masks.
+template<class Geo> static V solve(const Geo& g, int k) {
+  V r; double e = 0.001 * k + SD;
+  auto I = [&](double la1, double lo1, double la2, double lo2) { double s = 0, a1 = 0, a2 = 0, m = 0, M1 = 0, M2 = 0, S = 0;
+    double a12 = g.Inverse(la1, lo1, la2, lo2, s, a1, a2, m, M1, M2, S); cat(r, V{a12, s, a1, a2, m, M1, M2, S}); };
+  I(10.0 + k + SD, 20.0, -30.0, 140.0 - k);
+  I(-1.0 - 0.1 * k - SD, 0.0, 1.3 + e, 179.6 - 0.01 * k);
+  I(-0.3 - 0.01 * k, 10.0, 0.3 + 0.02 * k + SD, -170.2 + 0.005 * k);
+  I(10.0 + k, 30.0, -40.0 + k + SD, 30.0);
+  I(0.0, 10.0, 0.0, 100.0 + k + SD);
+  I(0.0, 0.0, 0.0, 179.5 + 0.02 * k);
+  I(40.0 + k, 10.0, 40.0 + k + 1.0e-4, 10.0 + 1.0e-4 * (k + 1));
+  I(30.0 + k, 0.0, -30.0 - k, 180.0);
+  I(90.0, 0.0, -90.0, 50.0 + k);
+  I(89.9 - e, 15.0, 89.95, -160.0 + k);
+  { double s = 0, a1 = 0, a2 = 0, m = 0, M1 = 0, M2 = 0, S = 0;
+    g.Inverse(5.0 + k, 1.0, 20.0 + SD, 60.0 + k, s); r.push_back(s); g.Inverse(5.0 + k, 1.0, 20.0, 61.0 + k, a1, a2); cat(r, V{a1, a2});
+    g.GenInverse(-5.0 - k, 1.0, 25.0, 62.0 + k + SD, Geo::AREA, s, a1, a2, m, M1, M2, S); r.push_back(S);
+    g.GenInverse(-5.0 - k, 1.0, 25.0, 63.0 + k, Geo::REDUCEDLENGTH | Geo::GEODESICSCALE, s, a1, a2, m, M1, M2, S); cat(r, V{m, M1, M2}); }
+  { double la = 0, lo = 0, az = 0, s = 0, m = 0, M1 = 0, M2 = 0, S = 0;
+    double a12 = g.Direct(40.0, k, 30.0 + SD, 1.0e6 * (k + 1), la, lo, az, m, M1, M2, S); cat(r, V{a12, la, lo, az, m, M1, M2, S});
+    g.ArcDirect(-20.0 + k, 5.0, 100.0 + 3 * k + SD, 50.0 + 7 * k, la, lo, az, s, m, M1, M2, S); cat(r, V{la, lo, az, s, m, M1, M2, S});
+    g.GenDirect(10.0, 170.0, 80.0 + k, false, 3.0e6 + 1.0e5 * k, Geo::LATITUDE | Geo::LONGITUDE | Geo::LONG_UNROLL, la, lo, az, s, m, M1, M2, S); cat(r, V{la, lo});
+    g.Direct(-33.0 - k, 2.0, 181.0 + k, 2.0e7 - 1.0e5 * k, la, lo); cat(r, V{la, lo});
+    g.GenDirect(89.0, 0.0, 10.0 * k, true, 179.0 + e, Geo::ALL, la, lo, az, s, m, M1, M2, S); cat(r, V{la, lo, az, s, m, M1, M2, S}); }
+  return r;
+}
+template<class Line> static V along(const Line& l, int k) {
+  V r; double la = 0, lo = 0, az = 0, s = 0, m = 0, M1 = 0, M2 = 0, S = 0;
+  l.Position(1.0e5 * (k + 1) + 1000 * SD, la, lo, az, m, M1, M2, S); cat(r, V{la, lo, az, m, M1, M2, S});
+  l.ArcPosition(10.0 * k + 1.0 + SD, la, lo, az, s, m, M1, M2, S); cat(r, V{la, lo, az, s, m, M1, M2, S});
+  l.Position(-2.0e5 * (k + 1), la, lo); cat(r, V{la, lo});
+  l.GenPosition(false, 1.9e7 + 1.0e5 * k, Line::LATITUDE | Line::LONGITUDE | Line::AZIMUTH | Line::LONG_UNROLL, la, lo, az, s, m, M1, M2, S); cat(r, V{la, lo, az});
+  l.GenPosition(true, 200.0 + k, Line::AREA | Line::DISTANCE, la, lo, az, s, m, M1, M2, S); cat(r, V{s, S});
+  return r;
+}
+template<class Geo, class Line> static V makelines(const Geo& g, int k) {
+  V r; double la = 0, lo = 0, az = 0, m = 0, M1 = 0, M2 = 0, S = 0, la2 = 0, lo2 = 0;
+  Line l = g.Line(10.0 + k + SD, 20.0, 30.0 + k, Geo::ALL), l2 = g.InverseLine(10.0 + k, 20.0, -30.0, 100.0 + k + SD, Geo::ALL);
+  l.Position(1.0e6, la, lo, az, m, M1, M2, S); l2.Position(0.5 * l2.Distance(), la2, lo2); cat(r, V{la, lo, az, m, M1, M2, S, la2, lo2, l2.Distance()});
+  Line l3 = g.DirectLine(-10.0 - k, 5.0, 200.0 + k + SD, 4.0e6), l4 = g.ArcDirectLine(1.0 + k, 0.0, 90.0, 120.0 + k, Geo::LATITUDE | Geo::LONGITUDE),
+    l5 = g.GenDirectLine(50.0, 10.0 * k, -45.0, false, 1.0e6 + k, Geo::DISTANCE_IN | Geo::LONGITUDE | Geo::LATITUDE), l6 = g.InverseLine(-1.0 - 0.1 * k, 0.0, 1.3, 179.6 - 0.01 * k);
+  l3.Position(l3.Distance(), la, lo, az); cat(r, V{la, lo, az, l3.Arc()});
+  l4.ArcPosition(l4.Arc(), la, lo); cat(r, V{la, lo});
+  l5.Position(5.0e5, la, lo); cat(r, V{la, lo});
+  l6.Position(l6.Distance(), la, lo, az); cat(r, V{la, lo, az, l6.Distance(), l6.Azimuth()});
+  return r;
+}
+// Rhumb: ordinary, meridional, along a parallel, across the date line, to a pole; with and without the area
+static V rhumbs(const Rhumb& h, int k) {
+  V r; double s = 0, az = 0, S = 0, la = 0, lo = 0;
+  h.Inverse(10.0 + k + SD, 20.0, 40.0, 100.0 - k, s, az, S); cat(r, V{s, az, S});
+  h.Inverse(-10.0 - k, 30.0, 35.0 + k + SD, 30.0, s, az, S); cat(r, V{s, az, S});
+  h.Inverse(33.0 + k, -10.0, 33.0 + k, 50.0 + k, s, az); cat(r, V{s, az});
+  h.Inverse(-20.0, 170.0 + 0.1 * k, 25.0 + k, -160.0, s, az, S); cat(r, V{s, az, S});
+  h.Inverse(80.0 - k, 5.0, 90.0, 77.0, s, az); cat(r, V{s, az});
+  h.GenInverse(1.0 + k, 2.0, -3.0, 40.0 + k, Rhumb::AREA, s, az, S); r.push_back(S);
+  h.Direct(40.0, k, 60.0 + SD, 1.0e6, la, lo, S); cat(r, V{la, lo, S});
+  h.Direct(-30.0 + k, 0.0, 0.0, 2.0e6 + 1000.0 * k, la, lo); cat(r, V{la, lo});
+  h.Direct(15.0 + k, 100.0, 90.0, 1.5e7, la, lo, S); cat(r, V{la, lo, S});
+  h.GenDirect(60.0, 10.0, 270.0 - k, 3.0e7 + 1.0e5 * k, Rhumb::LATITUDE | Rhumb::LONGITUDE | Rhumb::LONG_UNROLL, la, lo, S); cat(r, V{la, lo});
+  h.Direct(70.0, 10.0, 10.0 + k, 4.0e6, la, lo, S); cat(r, V{la, lo, S});
+  return r;
+}
+static V rhumbalong(const RhumbLine& l, int k) {
+  V r; double la = 0, lo = 0, S = 0;
+  l.Position(1.0e5 * (k + 1) + 1000 * SD, la, lo, S); cat(r, V{la, lo, S});
+  l.Position(-3.0e5 * (k + 1), la, lo); cat(r, V{la, lo});
+  l.GenPosition(2.0e7 + 1.0e5 * k, RhumbLine::LONGITUDE | RhumbLine::LONG_UNROLL | RhumbLine::LATITUDE, la, lo, S); cat(r, V{la, lo});
+  l.GenPosition(4.0e6 + k, RhumbLine::AREA, la, lo, S); r.push_back(S);
+  return r;
+}
+// projections: near and far from the central meridian, both hemispheres, pole, with and without convergence and scale
+template<class TM> static V tmerc(const TM& t, int k) {
+  V r; double x = 0, y = 0, g = 0, s = 0, la = 0, lo = 0;
+  t.Forward(3.0, 40.0 + k + SD, 5.0, x, y, g, s); t.Reverse(3.0, x, y, la, lo, g, s); cat(r, V{x, y, g, s, la, lo});
+  t.Forward(-75.0, -20.0 - k, -75.0 + 0.01 * k, x, y); t.Reverse(-75.0, x, y, la, lo); cat(r, V{x, y, la, lo});
+  t.Forward(10.0, 5.0 + k, 10.0 + 60.0 + k + SD, x, y, g, s); cat(r, V{x, y, g, s});
+  t.Forward(0.0, 90.0, 33.0 + k, x, y, g, s); cat(r, V{x, y, g, s});
+  t.Forward(177.0, 0.0, -179.0 + 0.1 * k, x, y, g, s); cat(r, V{x, y, g, s});
+  t.Reverse(9.0, 1.0e5 * k - 4.0e5, 9.0e6 - 1.0e5 * k, la, lo, g, s); cat(r, V{la, lo, g, s});
+  return r;
+}
+static V polar(const PolarStereographic& p, int k) {
+  V r; double x = 0, y = 0, g = 0, s = 0, la = 0, lo = 0;
+  p.Forward(true, 85.0 - k - SD, 30.0 + 20.0 * k, x, y, g, s); p.Reverse(true, x, y, la, lo, g, s); cat(r, V{x, y, g, s, la, lo});
+  p.Forward(false, -80.0 + 0.5 * k, -100.0 + k, x, y); p.Reverse(false, x, y, la, lo); cat(r, V{x, y, la, lo});
+  p.Forward(k % 2 == 0, k % 2 == 0 ? 90.0 : -90.0, 10.0 * k, x, y, g, s); cat(r, V{x, y, g, s});
+  p.Reverse(true, 0.0, 0.0, la, lo, g, s); cat(r, V{la, lo, g, s});
+  p.Forward(true, -10.0 - k, 5.0, x, y, g, s); cat(r, V{x, y, g, s});
+  return r;
+}
+template<class Conic> static V conic(const Conic& l, int k, double latmax) {
+  V r; double x = 0, y = 0, g = 0, s = 0, la = 0, lo = 0;
+  l.Forward(10.0, 40.0 + k + SD, 20.0, x, y, g, s); l.Reverse(10.0, x, y, la, lo, g, s); cat(r, V{x, y, g, s, la, lo});
+  l.Forward(-100.0, -25.0 - k, -130.0 + k, x, y); l.Reverse(-100.0, x, y, la, lo); cat(r, V{x, y, la, lo});
+  l.Forward(0.0, latmax - 0.5 * k, 179.0 - k, x, y, g, s); cat(r, V{x, y, g, s});
+  l.Reverse(5.0, 1.0e5 * (k + 1), -2.0e5 * k, la, lo, g, s); cat(r, V{la, lo, g, s});
+  return r;
+}
+static V geocentric(const Geocentric& c, int k) {
+  V r; double X = 0, Y = 0, Z = 0, la = 0, lo = 0, h = 0; vector<double> M(9), N(9);
+  c.Forward(40.0 + k + SD, 20.0 - 3 * k, 1000.0 * k, X, Y, Z, M); c.Reverse(X, Y, Z, la, lo, h, N); cat(r, V{X, Y, Z, la, lo, h}); cat(r, M); cat(r, N);
+  c.Forward(-60.0 + k, 170.0 + k, -500.0, X, Y, Z); c.Reverse(X, Y, Z, la, lo, h); cat(r, V{X, Y, Z, la, lo, h});
+  c.Reverse(10.0 * k, 0.0, 6.0e6 + 1000.0 * k, la, lo, h, N); cat(r, V{la, lo, h}); cat(r, N);
+  c.Reverse(100.0 + k, -50.0, 10.0 * k, la, lo, h); cat(r, V{la, lo, h});
+  c.Forward(90.0, 10.0 * k, 10.0 + k, X, Y, Z, M); cat(r, V{X, Y, Z}); cat(r, M);
+  return r;
+}
+static V localcart(const LocalCartesian& c, int k) {
+  V r; double x = 0, y = 0, z = 0, la = 0, lo = 0, h = 0; vector<double> M(9), N(9);
+  c.Forward(48.5 + 0.1 * k + SD, 2.5, 200.0, x, y, z); c.Reverse(x, y, z, la, lo, h); cat(r, V{x, y, z, la, lo, h});
+  c.Forward(47.0 - 0.2 * k, 1.0 + 0.01 * k, 50.0 * k, x, y, z, M); c.Reverse(x, y, z, la, lo, h, N); cat(r, V{x, y, z, la, lo, h}); cat(r, M); cat(r, N);
+  c.Reverse(1.0e4 * k, -2.0e4, 3.0e3 + k, la, lo, h, N); cat(r, V{la, lo, h}); cat(r, N);
+  c.Forward(-48.0, -178.0 + k, 0.0, x, y, z, M); cat(r, V{x, y, z}); cat(r, M);
+  return r;
+}
+static V ellipsoid(const Ellipsoid& e, int k) {
+  double p = 30.0 + k + SD;
+  return V{e.MeridianDistance(p), e.Area(), e.Volume(), e.QuarterMeridian(), e.RectifyingLatitude(40.0 + k), e.InverseRectifyingLatitude(40.0 + k), e.ConformalLatitude(20.0 + k),
+    e.InverseConformalLatitude(20.0 + k), e.AuthalicLatitude(50.0 - k), e.InverseAuthalicLatitude(50.0 - k), e.IsometricLatitude(60.0 - k), e.InverseIsometricLatitude(60.0 + k),
+    e.ParametricLatitude(p), e.InverseParametricLatitude(-p), e.GeocentricLatitude(p + 1), e.InverseGeocentricLatitude(-p - 1), e.CircleRadius(33.0 + k), e.CircleHeight(33.0 + k),
+    e.MeridionalCurvatureRadius(p), e.TransverseCurvatureRadius(p), e.NormalCurvatureRadius(p, 10.0 * k), e.RectifyingLatitude(90.0), e.IsometricLatitude(-90.0),
+    e.MeridianDistance(-89.0 + 0.1 * k)};
+}
+static V auxconv(const AuxLatitude& a, int k, bool exact) {
+  V r;
+  for (int i = 0; i < 6; ++i) for (int j = 0; j < 6; ++j) r.push_back(a.Convert(i, j, 30.0 + k + i - j + SD, exact));
+  for (int i = 0; i < 6; ++i) for (int j = 0; j < 6; ++j) pusha(r, a.Convert(i, j, AuxAngle::degrees(-70.0 + 3 * k + i + 2 * j), exact));
+  r.push_back(a.RectifyingRadius(exact)); r.push_back(a.AuthalicRadiusSquared(exact));
+  if (exact) {
+    AuxAngle phi(AuxAngle::degrees(25.0 + 2 * k + SD));
+    for (int j = 0; j < 6; ++j) { double d = 0; int n = 0; AuxAngle z = a.ToAuxiliary(j, phi, &d); pusha(r, z); r.push_back(d); pusha(r, a.FromAuxiliary(j, z, &n)); r.push_back(n); }
+    pusha(r, a.ToAuxiliary(AuxLatitude::CHI, AuxAngle::degrees(90.0))); pusha(r, a.FromAuxiliary(AuxLatitude::XI, AuxAngle::degrees(-90.0)));
+  }
+  return r;
+}
+static V normgrav(const NormalGravity& n, int k) {
+  double gy = 0, gz = 0, gx = 0, gy2 = 0, gz2 = 0, Gx = 0, Gy = 0, Gz = 0, fx = 0, fy = 0;
+  double u = n.U(7.0e6, 1.0e5 * k, 2.0e6 + SD, gx, gy2, gz2), gg = n.Gravity(40.0 + k + SD, 1000.0, gy, gz), v0 = n.V0(6.5e6 + 1000.0 * k, -1.0e6, 3.0e6, Gx, Gy, Gz),
+    ph = n.Phi(5.0e6 + k, 4.0e6, fx, fy);
+  return V{u, gx, gy2, gz2, gg, gy, gz, n.SurfaceGravity(30.0 + k), v0, Gx, Gy, Gz, ph, fx, fy, n.DynamicalFormFactor(2), n.DynamicalFormFactor(4 + 2 * (k % 8)), n.SurfaceGravity(-90.0),
+    n.EquatorialGravity(), n.PolarGravity(), n.GravityFlattening(), n.SurfacePotential(), n.Gravity(-89.0 + k, -100.0 * k, gy, gz), gy, gz,
+    NormalGravity::FlatteningToJ2(WA, 3.986004418e14, 7.292115e-5, WF * (1 + 0.01 * k)), NormalGravity::J2ToFlattening(WA, 3.986004418e14, 7.292115e-5, 1.08263e-3 * (1 + 0.01 * k))};
+}
+
+typedef function<V(int, int)> Prog;
+struct Entry { Prog f; int iters; };
+static const int ITER = 8;        // iterations per thread (cheap stateful programs run more, see the table)
 
 // ---- access programs: the same names as Threads.tla!Names ----
-static map<string, function<V(int)>> programs() {
-  map<string, function<V(int)>> p;
-  auto inv = [](const Geodesic& g, int i) { double s, a1, a2, m, M1, M2, S; g.Inverse(10.0 + i, 20.0, -30.0, 140.0 - i, s, a1, a2, m, M1, M2, S); double la, lo, az; g.Direct(40.0, i, 30.0, 1.0e6 * (i + 1), la, lo, az); return V{s, a1, a2, m, M1, M2, S, la, lo, az}; };
-  auto invx = [](const GeodesicExact& g, int i) { double s, a1, a2, m, M1, M2, S; g.Inverse(10.0 + i, 20.0, -30.0, 140.0 - i, s, a1, a2, m, M1, M2, S); double la, lo, az; g.Direct(40.0, i, 30.0, 1.0e6 * (i + 1), la, lo, az); return V{s, a1, a2, m, M1, M2, S, la, lo, az}; };
-  p["geod_wgs84"] = [=](int i) { return inv(Geodesic::WGS84(), i); };
-  p["geod_obj"] = [=](int i) { return inv(G->geod, i); };
-  p["geodex_wgs84"] = [=](int i) { return invx(GeodesicExact::WGS84(), i); };
-  p["geodex_obj"] = [=](int i) { return invx(G->geodex, i); };
-  p["geodexact_true"] = [=](int i) { return inv(G->geodx, i); };
-  p["line_pos"] = [](int i) { double la, lo, az, m, M1, M2, S; G->line.Position(1.0e5 * (i + 1), la, lo, az, m, M1, M2, S); return V{la, lo, az, m, M1, M2, S}; };
-  p["lineex_pos"] = [](int i) { double la, lo, az, m, M1, M2, S; G->lineex.Position(1.0e5 * (i + 1), la, lo, az, m, M1, M2, S); return V{la, lo, az, m, M1, M2, S}; };
-  auto rh = [](const Rhumb& r, int i) { double s, az, S; r.Inverse(10.0 + i, 20.0, 40.0, 100.0 - i, s, az, S); double la, lo, S2; r.Direct(40.0, i, 60.0, 1.0e6, la, lo, S2); return V{s, az, S, la, lo, S2}; };
-  p["rhumb_wgs84"] = [=](int i) { return rh(Rhumb::WGS84(), i); };
-  p["rhumb_series"] = [=](int i) { return rh(G->rhumb, i); };
-  p["rhumb_exact"] = [=](int i) { return rh(G->rhumbx, i); };
-  p["rhumbline_pos"] = [](int i) { double la, lo, S; G->rline.Position(1.0e5 * (i + 1), la, lo, S); return V{la, lo, S}; };
-  auto tmf = [](const TransverseMercator& t, int i) { double x, y, g, k, la, lo; t.Forward(3.0, 40.0 + i, 5.0, x, y, g, k); t.Reverse(3.0, x, y, la, lo, g, k); return V{x, y, g, k, la, lo}; };
-  p["tm_utm"] = [=](int i) { return tmf(TransverseMercator::UTM(), i); };
-  p["tm_obj"] = [=](int i) { return tmf(G->tm, i); };
-  p["tmx_utm"] = [](int i) { double x, y, g, k, la, lo; TransverseMercatorExact::UTM().Forward(3.0, 40.0 + i, 5.0, x, y, g, k); TransverseMercatorExact::UTM().Reverse(3.0, x, y, la, lo, g, k); return V{x, y, g, k, la, lo}; };
-  p["ps_ups"] = [](int i) { double x, y, g, k, la, lo; PolarStereographic::UPS().Forward(true, 85.0 - i, 30.0, x, y, g, k); PolarStereographic::UPS().Reverse(true, x, y, la, lo, g, k); return V{x, y, g, k, la, lo}; };
-  auto lc = [](const LambertConformalConic& l, int i) { double x, y, g, k, la, lo; l.Forward(10.0, 40.0 + i, 20.0, x, y, g, k); l.Reverse(10.0, x, y, la, lo, g, k); return V{x, y, g, k, la, lo}; };
-  p["lcc_mercator"] = [=](int i) { return lc(LambertConformalConic::Mercator(), i); };
-  p["lcc_obj"] = [=](int i) { return lc(G->lcc, i); };
-  auto al = [](const AlbersEqualArea& l, int i) { double x, y, g, k, la, lo; l.Forward(10.0, 40.0 + i, 20.0, x, y, g, k); l.Reverse(10.0, x, y, la, lo, g, k); return V{x, y, g, k, la, lo}; };
-  p["albers_cea"] = [=](int i) { return al(AlbersEqualArea::CylindricalEqualArea(), i); };
-  p["albers_obj"] = [=](int i) { return al(G->alb, i); };
-  p["geoc_wgs84"] = [](int i) { double X, Y, Z, la, lo, h; vector<double> M(9); Geocentric::WGS84().Forward(40.0 + i, 20.0, 1000.0, X, Y, Z, M); Geocentric::WGS84().Reverse(X, Y, Z, la, lo, h); return V{X, Y, Z, la, lo, h, M[0], M[4], M[8]}; };
-  p["local_obj"] = [](int i) { double x, y, z, la, lo, h; G->local.Forward(48.5 + 0.1 * i, 2.5, 200.0, x, y, z); G->local.Reverse(x, y, z, la, lo, h); return V{x, y, z, la, lo, h}; };
-  p["ell_wgs84"] = [](int i) { const Ellipsoid& e = Ellipsoid::WGS84(); return V{e.MeridianDistance(30.0 + i), e.Area(), e.RectifyingLatitude(40.0 + i), e.ConformalLatitude(20.0 + i), e.AuthalicLatitude(50.0 - i), e.IsometricLatitude(60.0), e.CircleRadius(33.0 + i), e.QuarterMeridian()}; };
-  p["aux_series"] = [](int i) { V r; for (int a = 0; a < 6; ++a) for (int b = 0; b < 6; ++b) r.push_back(G->aux.Convert(a, b, 30.0 + i + a - b, false)); return r; };
-  p["aux_exact"] = [](int i) { V r; for (int a = 0; a < 6; ++a) for (int b = 0; b < 6; ++b) r.push_back(G->aux.Convert(a, b, 30.0 + i + a - b, true)); return r; };
-  p["daux_series"] = [](int i) { V r; AuxAngle x(AuxAngle::degrees(20.0 + i)), y(AuxAngle::degrees(40.0 + i)); for (int a = 0; a < 6; ++a) for (int b = 0; b < 6; ++b) r.push_back(G->daux.DConvert(a, b, x, y)); return r; };
-  p["elliptic_obj"] = [](int i) { double sn, cn, dn; G->ef.sncndn(0.3 + 0.1 * i, sn, cn, dn); return V{G->ef.K(), G->ef.E(), G->ef.F(0.5 + 0.1 * i), G->ef.E(0.4 + 0.1 * i), G->ef.Pi(0.3), sn, cn, dn, G->ef.Einv(0.7 + 0.05 * i)}; };
-  p["normgrav_wgs84"] = [](int i) { const NormalGravity& n = NormalGravity::WGS84(); double gy, gz, gx, gy2, gz2; double u = n.U(7.0e6, 1.0e5 * i, 2.0e6, gx, gy2, gz2); double gg = n.Gravity(40.0 + i, 1000.0, gy, gz); return V{u, gx, gy2, gz2, gg, gy, gz, n.SurfaceGravity(30.0 + i)}; };
-  p["harmonic_obj"] = [](int i) { double gx, gy, gz; double v = (*G->sh)(7.0e6, 1.0e5 * (i + 1), 2.0e6, gx, gy, gz); return V{v, gx, gy, gz}; };
-  p["circle_obj"] = [](int i) { double gx, gy, gz; double v = (*G->circ)(10.0 * i, gx, gy, gz); return V{v, gx, gy, gz}; };
-  p["geoid_ts"] = [](int i) { return V{(*G->geoid)(40.0 + i, 10.0 * i), (*G->geoid)(-85.0, 179.0 + i), G->geoid->ConvertHeight(10.0, 20.0 + i, 100.0, Geoid::GEOIDTOELLIPSOID)}; };
-  p["geoid_ts_bilinear"] = [](int i) { return V{(*G->geoidl)(40.0 + 7 * i, 10.0 * i + 3), (*G->geoidl)(-85.0 + i, 179.0 + i), (*G->geoidl)(12.0 * i - 30, -77.0 + 31 * i), G->geoidl->ConvertHeight(10.0, 20.0 + 13 * i, 100.0, Geoid::GEOIDTOELLIPSOID)}; };
-  p["utmups_fwd"] = [](int i) { int z; bool n; double x, y, la, lo; UTMUPS::Forward(40.0 + i, 10.0 * i, z, n, x, y); UTMUPS::Reverse(z, n, x, y, la, lo); int z2; bool n2; double x2, y2; UTMUPS::Forward(88.0, 10.0 * i, z2, n2, x2, y2); return V{double(z), double(n), x, y, la, lo, x2, y2}; };
-  p["mgrs_fwd"] = [](int i) { string m; MGRS::Forward(31 + i, true, 5.0e5, 4.0e6 + 1000.0 * i, 5, m); int z, pr; bool n; double x, y; MGRS::Reverse(m, z, n, x, y, pr); return V{double(z), double(n), x, y, double(pr), double(m.size())}; };
-  p["osgb_fwd"] = [](int i) { double x, y, la, lo; OSGB::Forward(52.0 + 0.1 * i, -1.0, x, y); OSGB::Reverse(x, y, la, lo); string g; OSGB::GridReference(x, y, 3, g); return V{x, y, la, lo, double(g.size())}; };
-  p["dms_codec"] = [](int i) { DMS::flag f; double v = DMS::Decode("40d26'47\"N", f); string s = DMS::Encode(40.4464 + i, 3, DMS::LATITUDE); return V{v, double(f), double(s.size()), DMS::Decode(s, f)}; };
-  p["gridcodes"] = [](int i) { string h, g, r; Geohash::Forward(40.0 + i, 10.0, 9, h); GARS::Forward(40.0 + i, 10.0, 2, g); Georef::Forward(40.0 + i, 10.0, 4, r); double la, lo; int pr; Geohash::Reverse(h, la, lo, pr); return V{la, lo, double(pr), double(g.size() + r.size())}; };
-  p["azeq_obj"] = [](int i) { double x, y, la, lo; G->azeq.Forward(40.0, 10.0, 45.0 + i, 12.0, x, y); G->azeq.Reverse(40.0, 10.0, x, y, la, lo); return V{x, y, la, lo}; };
-  p["gnomonic_obj"] = [](int i) { double x, y, la, lo; G->gno.Forward(40.0, 10.0, 45.0 + i, 12.0, x, y); G->gno.Reverse(40.0, 10.0, x, y, la, lo); return V{x, y, la, lo}; };
-  p["cassini_obj"] = [](int i) { double x, y, la, lo; G->cas.Forward(45.0 + i, 12.0, x, y); G->cas.Reverse(x, y, la, lo); return V{x, y, la, lo}; };
-  p["dst_obj"] = [](int i) { vector<double> F(96); auto f = [i](double x) { return sin(x) + 0.1 * (i + 1) * sin(3 * x); }; G->dst.transform(f, F.data()); return V{F[0], F[1], F[2], G->dst.eval(0.3, cos(0.3), F.data(), 48)}; };
+static map<string, Entry> programs() {
+  map<string, Entry> p;
+  auto K = [](function<V(int)> f, int iters = ITER) { return Entry{[f](int t, int i) { return f(i * NT + t); }, iters}; };
+  p["geod_wgs84"] = K([](int k) { return solve(Geodesic::WGS84(), k); });
+  p["geod_obj"] = K([](int k) { return solve(G->geod, k); });
+  p["geodex_wgs84"] = K([](int k) { return solve(GeodesicExact::WGS84(), k); });
+  p["geodex_obj"] = K([](int k) { return solve(G->geodex, k); });
+  p["geodexact_true"] = K([](int k) { return solve(G->geodx, k); });
+  p["line_pos"] = K([](int k) { return along(G->line, k); });
+  p["lineex_pos"] = K([](int k) { return along(G->lineex, k); });
+  p["rhumb_wgs84"] = K([](int k) { return rhumbs(Rhumb::WGS84(), k); });
+  p["rhumb_series"] = K([](int k) { return rhumbs(G->rhumb, k); });
+  p["rhumb_exact"] = K([](int k) { return rhumbs(G->rhumbx, k); });
+  p["rhumbline_pos"] = K([](int k) { return rhumbalong(G->rline, k); });
+  p["tm_utm"] = K([](int k) { return tmerc(TransverseMercator::UTM(), k); });
+  p["tm_obj"] = K([](int k) { return tmerc(G->tm, k); });
+  p["tmx_utm"] = K([](int k) { return tmerc(TransverseMercatorExact::UTM(), k); });
+  p["ps_ups"] = K([](int k) { return polar(PolarStereographic::UPS(), k); });
+  p["lcc_mercator"] = K([](int k) { return conic(LambertConformalConic::Mercator(), k, 85.0); });
+  p["lcc_obj"] = K([](int k) { return conic(G->lcc, k, 89.0); });
+  p["albers_cea"] = K([](int k) { return conic(AlbersEqualArea::CylindricalEqualArea(), k, 90.0); });
+  p["albers_aea_north"] = K([](int k) { return conic(AlbersEqualArea::AzimuthalEqualAreaNorth(), k, 90.0); });
+  p["albers_aea_south"] = K([](int k) { return conic(AlbersEqualArea::AzimuthalEqualAreaSouth(), k, 90.0); });
+  p["albers_obj"] = K([](int k) { return conic(G->alb, k, 90.0); });
+  p["geoc_wgs84"] = K([](int k) { return geocentric(Geocentric::WGS84(), k); });
+  p["geoc_obj"] = K([](int k) { return geocentric(G->geoc, k); });
+  p["local_obj"] = K([](int k) { return localcart(G->local, k); });
+  p["ell_wgs84"] = K([](int k) { return ellipsoid(Ellipsoid::WGS84(), k); });
+  p["aux_series"] = K([](int k) { return auxconv(G->aux, k, false); });
+  p["aux_axes_series"] = K([](int k) { return auxconv(G->auxb, k, false); });
+  p["aux_wgs84"] = K([](int k) { return auxconv(AuxLatitude::WGS84(), k, false); });
+  p["aux_exact"] = K([](int k) { return auxconv(G->aux, k, true); });
+  p["daux_series"] = K([](int k) { V r; AuxAngle x(AuxAngle::degrees(20.0 + k + SD)), y(AuxAngle::degrees(40.0 + 2 * k));
+    for (int a = 0; a < 6; ++a) for (int b = 0; b < 6; ++b) r.push_back(G->daux.DConvert(a, b, x, y));
+    cat(r, V{G->daux.DParametric(x, y), G->daux.DRectifying(x, y), G->daux.DIsometric(x, y), G->daux.DParametric(x, x), G->daux.DRectifying(y, y), G->daux.DIsometric(x, x),
+      DAuxLatitude::Dlam(0.1 * k, 0.3 + 0.1 * k)}); return r; });
+  p["elliptic_obj"] = K([](int k) { const EllipticFunction& e = G->ef; double x = 0.3 + 0.1 * k + SD, sn = 0, cn = 0, dn = 0, sn2 = 0, cn2 = 0, dn2 = 0; e.sncndn(x, sn, cn, dn); double am = e.am(1.0 + 0.2 * k, sn2, cn2, dn2);
+    return V{e.K(), e.E(), e.D(), e.KE(), e.Pi(), e.G(), e.H(), e.F(0.5 + 0.1 * k), e.E(0.4 + 0.1 * k), e.Ed(10.0 + 7.0 * k), e.Einv(0.7 + 0.05 * k), e.Pi(0.3 + 0.1 * k), e.D(0.2 + 0.1 * k), e.G(0.6 + 0.1 * k),
+      e.H(0.1 + 0.1 * k), sn, cn, dn, e.F(sn, cn, dn), e.E(sn, cn, dn), e.Pi(sn, cn, dn), e.D(sn, cn, dn), e.G(sn, cn, dn), e.H(sn, cn, dn), e.deltaF(sn, cn, dn), e.deltaE(sn, cn, dn),
+      e.deltaEinv(sn, cn), e.deltaPi(sn, cn, dn), e.deltaD(sn, cn, dn), e.deltaG(sn, cn, dn), e.deltaH(sn, cn, dn), am, sn2, cn2, dn2, e.am(-2.0 - 0.3 * k), e.Delta(sn, cn),
+      EllipticFunction::RF(1.0 + k, 2.0, 3.0), EllipticFunction::RF(1.0 + k, 2.0), EllipticFunction::RC(1.0, 2.0 + k), EllipticFunction::RG(1.0, 2.0 + k, 3.0), EllipticFunction::RG(1.0 + k, 2.0),
+      EllipticFunction::RJ(1.0, 2.0, 3.0 + k, 4.0), EllipticFunction::RD(1.0, 2.0 + k, 3.0)}; });
+  p["normgrav_wgs84"] = K([](int k) { return normgrav(NormalGravity::WGS84(), k); });
+  p["normgrav_grs80"] = K([](int k) { return normgrav(NormalGravity::GRS80(), k); });
+  p["harmonic_obj"] = K([](int k) { double gx = 0, gy = 0, gz = 0; double v = (*G->sh)(7.0e6, 1.0e5 * (k + 1), 2.0e6 + SD, gx, gy, gz), w = (*G->sh)(-6.0e6 + 1.0e4 * k, 2.0e6, -3.0e6);
+    CircularEngine c = G->sh->Circle(6.5e6 + 1.0e4 * k, 1.0e6, true), c0 = G->sh->Circle(6.6e6, -2.0e6 + 1.0e4 * k, false); double hx = 0, hy = 0, hz = 0, u = c(12.0 * k, hx, hy, hz);
+    return V{v, gx, gy, gz, w, u, hx, hy, hz, c0(33.0 + k)}; });
+  p["circle_obj"] = K([](int k) { const CircularEngine& c = *G->circ; double gx = 0, gy = 0, gz = 0, hx = 0, hy = 0, hz = 0, sl = sin(0.1 * k + SD), cl = cos(0.1 * k + SD); double v = c(10.0 * k + SD, gx, gy, gz), w = c(sl, cl, hx, hy, hz);
+    return V{v, gx, gy, gz, w, hx, hy, hz, c(-17.0 * k), c(cl, -sl)}; });
+  // thread-safe geoids: every call evaluates two points of one cell and then one of the neighbouring cell; the cell
+  // depends on (t, i), so at any time the threads work in different cells (10 degree cells of the synthetic raster)
+  auto geo = [](const Geoid& g, int t, int i) { int la = -80 + ((i / 2) * 7 + 3 * t + int(1000 * SD)) % 160, lo = ((i / 2) * 13 + 50 * t) % 360;
+    return V{g(la + 1.0, lo + 1.0), g(la + 2.0, lo + 3.0), g(la + 2.5, lo + 12.0), g.ConvertHeight(la + 3.0, lo + 12.5, 100.0 + i, i % 2 ? Geoid::GEOIDTOELLIPSOID : Geoid::ELLIPSOIDTOGEOID)}; };
+  p["geoid_ts"] = Entry{[=](int t, int i) { V r = geo(*G->geoid, t, i); if (i < 4) cat(r, V{(*G->geoid)(-85.0, 179.0 + i + t), (*G->geoid)(89.5, -0.5 * t), (*G->geoid)(90.0, 10.0 * i)}); return r; }, 8000};
+  p["geoid_ts_bilinear"] = Entry{[=](int t, int i) { V r = geo(*G->geoidl, t, i); if (i < 4) cat(r, V{(*G->geoidl)(-85.0 + i, 179.0 + i + t), (*G->geoidl)(12.0 * i - 30, -77.0 + 31 * t), (*G->geoidl)(-90.0, 5.0 * t)}); return r; }, 8000};
+  p["utmups_fwd"] = K([](int k) { V r; int z = 0, z2 = 0, z3 = 0; bool n = false, n2 = false, n3 = false; double x = 0, y = 0, la = 0, lo = 0, x2 = 0, y2 = 0, x3 = 0, y3 = 0, g = 0, s = 0;
+    UTMUPS::Forward(40.0 + k + SD, 10.0 * k, z, n, x, y); UTMUPS::Reverse(z, n, x, y, la, lo); cat(r, V{double(z), double(n), x, y, la, lo});
+    UTMUPS::Forward(88.0 - 0.1 * k, 10.0 * k, z2, n2, x2, y2, g, s); UTMUPS::Reverse(z2, n2, x2, y2, la, lo, g, s); cat(r, V{double(z2), double(n2), x2, y2, la, lo, g, s});
+    UTMUPS::Forward(-85.0 - 0.2 * k, -20.0 * k, z3, n3, x3, y3); UTMUPS::Reverse(z3, n3, x3, y3, la, lo); cat(r, V{double(z3), double(n3), x3, y3, la, lo});
+    UTMUPS::Forward(-33.0 + k, 17.0 * k, z3, n3, x3, y3, g, s, UTMUPS::UTM); cat(r, V{double(z3), double(n3), x3, y3, g, s});
+    r.push_back(UTMUPS::StandardZone(60.0 + 0.5 * k, 3.0 + k)); r.push_back(UTMUPS::StandardZone(72.0 + k, 8.0 + 3 * k)); r.push_back(UTMUPS::StandardZone(-81.0, 3.0 * k, UTMUPS::STANDARD));
+    { double xo = 0, yo = 0, x4 = 0, y4 = 0; int zo = 0, z4 = 0; bool n4 = false; int zn = remainder(10.0 * k - (6 * z - 183), 360.0) > 0 ? (z == 60 ? 1 : z + 1) : (z == 1 ? 60 : z - 1);      // the nearer neighbouring zone
+      UTMUPS::Transfer(z, n, x, y, zn, n, xo, yo, zo); cat(r, V{xo, yo, double(zo)}); UTMUPS::Transfer(z, n, x, y, z, !n, xo, yo, zo); cat(r, V{xo, yo, double(zo)});
+      UTMUPS::Forward(84.5 + 0.05 * k, 25.0 * k, z4, n4, x4, y4, UTMUPS::UTM); UTMUPS::Transfer(z4, n4, x4, y4, UTMUPS::UPS, true, xo, yo, zo); cat(r, V{double(z4), x4, y4, xo, yo, double(zo)});
+      UTMUPS::Transfer(z2, n2, x2, y2, UTMUPS::STANDARD, n2, xo, yo, zo); cat(r, V{xo, yo, double(zo)}); }
+    int zz = 1 + (13 * k) % 60; bool nn = k % 2 == 0;
+    pushs(r, UTMUPS::EncodeZone(zz, nn, k % 3 == 0)); pushs(r, UTMUPS::EncodeZone(0, !nn, k % 3 != 0));
+    { int zd = 0; bool nd = false; UTMUPS::DecodeZone(UTMUPS::EncodeZone(zz, nn, true), zd, nd); cat(r, V{double(zd), double(nd)}); UTMUPS::DecodeZone(k % 2 ? "south" : "N", zd, nd); cat(r, V{double(zd), double(nd)});
+      int ep = UTMUPS::EncodeEPSG(zz, nn); UTMUPS::DecodeEPSG(ep, zd, nd); cat(r, V{double(ep), double(zd), double(nd)}); UTMUPS::DecodeEPSG(k % 2 ? 32661 : 32761, zd, nd); cat(r, V{double(zd), double(nd), double(UTMUPS::EncodeEPSG(0, nn))}); }
+    r.push_back(UTMUPS::UTMShift()); return r; });
+  p["mgrs_fwd"] = K([](int k) { V r; string m; int z = 0, pr = 0; bool n = false; double x = 0, y = 0;
+    MGRS::Forward(31 + k, true, 5.0e5 + 10.0 * k + SD, 4.0e6 + 1000.0 * k, 5, m); pushs(r, m); MGRS::Reverse(m, z, n, x, y, pr); cat(r, V{double(z), double(n), x, y, double(pr)});
+    { double la = 0, lo = 0; UTMUPS::Reverse(1 + (7 * k) % 60, false, 3.0e5 + 1234.5 * k, 7.0e6 - 54321.0 * k, la, lo); MGRS::Forward(1 + (7 * k) % 60, false, 3.0e5 + 1234.5 * k, 7.0e6 - 54321.0 * k, la, 8, m); } pushs(r, m); MGRS::Reverse(m, z, n, x, y, pr, false); cat(r, V{double(z), double(n), x, y, double(pr)});
+    { double la = 0, lo = 0; UTMUPS::Reverse(0, k % 2 == 0, 2.0e6 + 1.0e4 * k, 2.0e6 - 3.0e4 * k, la, lo); MGRS::Forward(0, k % 2 == 0, 2.0e6 + 1.0e4 * k, 2.0e6 - 3.0e4 * k, la, 3 + k % 4, m); pushs(r, m); }
+    MGRS::Forward(0, k % 2 != 0, 2.1e6 - 1.0e4 * k, 1.9e6 + 2.0e4 * k, 2 + k % 5, m); pushs(r, m); MGRS::Reverse(m, z, n, x, y, pr); cat(r, V{double(z), double(n), x, y, double(pr)});
+    MGRS::Forward(32, true, 4.5e5, 8.0e6 + 1.0e4 * k, 0, m); pushs(r, m); MGRS::Reverse(m, z, n, x, y, pr); cat(r, V{double(z), double(n), x, y, double(pr)});
+    MGRS::Forward(33, true, 5.0e5, 6.2e6 + 10 * k, -1, m); pushs(r, m); MGRS::Reverse(m, z, n, x, y, pr); cat(r, V{double(z), double(n), x, y, double(pr)});
+    { string gz, bl, ea, no; MGRS::Decode("38SMB44" + to_string(10 + k) + "84" + to_string(10 + k), gz, bl, ea, no); pushs(r, gz); pushs(r, bl); pushs(r, ea); pushs(r, no); }
+    if (k % 8 == 0) MGRS::Check();
+    return r; });
+  p["osgb_fwd"] = K([](int k) { V r; double x = 0, y = 0, la = 0, lo = 0, g = 0, s = 0, x2 = 0, y2 = 0; int pr = 0; string gr, gr2;
+    OSGB::Forward(52.0 + 0.1 * k + SD, -1.0 - 0.05 * k, x, y); OSGB::Reverse(x, y, la, lo); OSGB::GridReference(x, y, 3 + k % 3, gr); cat(r, V{x, y, la, lo}); pushs(r, gr);
+    OSGB::GridReference(gr, x2, y2, pr); cat(r, V{x2, y2, double(pr)});
+    OSGB::Forward(57.0 - 0.2 * k, -4.0 + 0.1 * k, x, y, g, s); OSGB::Reverse(x, y, la, lo, g, s); cat(r, V{x, y, g, s, la, lo});
+    gr2 = string("S") + "UVWXYZ"[k % 6] + " " + to_string(100 + 37 * k) + " " + to_string(100 + (41 * k) % 900); OSGB::GridReference(gr2, x2, y2, pr, k % 2 == 0); cat(r, V{x2, y2, double(pr)});
+    OSGB::GridReference(string("n") + "abcdefghjk"[k % 10] + to_string(10000 + (4321 * k) % 90000) + to_string(98765 - 1234 * k), x2, y2, pr); cat(r, V{x2, y2, double(pr)});
+    OSGB::GridReference(1.0e5 * (k % 7) + 0.5, 2.0e5 + 1.0e4 * k, 5, gr); pushs(r, gr); OSGB::GridReference(4.0e5, 3.0e5 + k, 0, gr); pushs(r, gr); return r; });
+  p["dms_codec"] = K([](int k) { V r; DMS::flag f = DMS::NONE; double la = 0, lo = 0, d = 0, m = 0, s = 0;
+    double v = DMS::Decode("40d26'47\"N", f); string e = DMS::Encode(40.4464 + k + SD, 3, DMS::LATITUDE); cat(r, V{v, double(f)}); pushs(r, e); r.push_back(DMS::Decode(e, f)); r.push_back(double(f));
+    string sa = to_string(10 + k) + "d" + to_string((7 * k) % 60) + "'" + to_string((11 * k) % 60) + ".5\"" + (k % 2 ? "S" : "N"), sb = to_string(20 + 2 * k) + ":" + to_string((13 * k) % 60) + ":30" + (k % 3 ? "W" : "E");
+    DMS::DecodeLatLon(sa, sb, la, lo); cat(r, V{la, lo}); DMS::DecodeLatLon(sb, sa, la, lo, true); cat(r, V{la, lo}); DMS::DecodeLatLon(to_string(100 + k) + "d30", to_string(-30 + k) + ".25", la, lo, true); cat(r, V{la, lo});
+    r.push_back(DMS::DecodeAngle(to_string(k) + "d15'")); r.push_back(DMS::DecodeAngle("-" + to_string(3 * k) + ".125")); r.push_back(DMS::DecodeAzimuth(to_string(100 + 10 * k) + "d30'E")); r.push_back(DMS::DecodeAzimuth(to_string(20 + k) + "W"));
+    r.push_back(DMS::Decode(10.0 + k, 20.0, 30.0 + k)); r.push_back(DMS::Decode(to_string(k) + "d" + to_string(k) + "'" + to_string(k) + "\"+1d", f)); r.push_back(double(f));
+    pushs(r, DMS::Encode(-123.456789 - k, DMS::MINUTE, 4, DMS::LONGITUDE)); pushs(r, DMS::Encode(12.5 + 0.01 * k, DMS::DEGREE, 5, DMS::NONE)); pushs(r, DMS::Encode(271.25 + k, DMS::SECOND, 2, DMS::AZIMUTH, ':'));
+    pushs(r, DMS::Encode(-0.5 - k, 6, DMS::NUMBER)); pushs(r, DMS::Encode(59.99999 + k, 0, DMS::LATITUDE, ':')); pushs(r, DMS::Encode(3.0 * k, 9, DMS::NONE));
+    DMS::Encode(33.3 + k, d, m); cat(r, V{d, m}); DMS::Encode(-33.37 - k, d, m, s); cat(r, V{d, m, s}); return r; });
+  p["gridcodes"] = K([](int k) { V r; string h, g, o; double la = 0, lo = 0; int pr = 0;
+    Geohash::Forward(40.0 + k + SD, 10.0 - 7 * k, 9 + k % 4, h); pushs(r, h); Geohash::Reverse(h, la, lo, pr); cat(r, V{la, lo, double(pr)}); Geohash::Reverse(h.substr(0, 5), la, lo, pr, false); cat(r, V{la, lo, double(pr)});
+    GARS::Forward(-40.0 + k + SD, 10.0 + 9 * k, k % 3, g); pushs(r, g); GARS::Reverse(g, la, lo, pr); cat(r, V{la, lo, double(pr)}); GARS::Reverse(g, la, lo, pr, false); cat(r, V{la, lo, double(pr)});
+    Georef::Forward(40.0 - 2 * k + SD, -100.0 + 11 * k, k % 6, o); pushs(r, o); Georef::Reverse(o, la, lo, pr); cat(r, V{la, lo, double(pr)}); Georef::Forward(-89.0 + k, 179.0 - k, -1, o); pushs(r, o); Georef::Reverse(o, la, lo, pr, false); cat(r, V{la, lo, double(pr)});
+    cat(r, V{Geohash::LatitudeResolution(k), Geohash::LongitudeResolution(k), double(Geohash::GeohashLength(1.0 / (k + 1))), double(Geohash::GeohashLength(0.1 / (k + 1), 0.2)), double(Geohash::DecimalPrecision(k)),
+      GARS::Resolution(k % 3), double(GARS::Precision(0.1 * (k + 1))), Georef::Resolution(k % 12), double(Georef::Precision(1.0 / (1 + 10 * k)))}); return r; });
+  p["azeq_obj"] = K([](int k) { double x = 0, y = 0, la = 0, lo = 0, az = 0, rk = 0, az2 = 0, rk2 = 0; G->azeq.Forward(40.0, 10.0, 45.0 + k + SD, 12.0 - 9 * k, x, y, az, rk); G->azeq.Reverse(40.0, 10.0, x, y, la, lo, az2, rk2);
+    V r{x, y, az, rk, la, lo, az2, rk2}; G->azeq.Forward(-1.0, 0.0, 1.3, 179.6 - 0.01 * k, x, y); G->azeq.Reverse(10.0 + k, 0.0, 1.0e6, -2.0e6, la, lo); cat(r, V{x, y, la, lo}); return r; });
+  p["gnomonic_obj"] = K([](int k) { double x = 0, y = 0, la = 0, lo = 0, az = 0, rk = 0, az2 = 0, rk2 = 0; G->gno.Forward(40.0, 10.0, 45.0 + k + SD, 12.0 - 3 * k, x, y, az, rk); G->gno.Reverse(40.0, 10.0, x, y, la, lo, az2, rk2);
+    V r{x, y, az, rk, la, lo, az2, rk2}; G->gno.Forward(-20.0 - k, 5.0, 10.0, 40.0 + k, x, y); G->gno.Reverse(10.0 + k, 0.0, 1.0e6, -2.0e6, la, lo); cat(r, V{x, y, la, lo}); return r; });
+  p["cassini_obj"] = K([](int k) { double x = 0, y = 0, la = 0, lo = 0, az = 0, rk = 0, az2 = 0, rk2 = 0; G->cas.Forward(45.0 + k + SD, 12.0 - 2 * k, x, y, az, rk); G->cas.Reverse(x, y, la, lo, az2, rk2);
+    V r{x, y, az, rk, la, lo, az2, rk2}; G->cas.Forward(-30.0 + k, 100.0 + 5 * k, x, y); G->cas.Reverse(-1.0e5 * k, 2.0e6, la, lo); cat(r, V{x, y, la, lo}); return r; });
+  p["dst_obj"] = K([](int k) { vector<double> F(96); auto f = [k](double x) { return sin(x) + 0.1 * (k + 1) * sin(3 * x) + 0.01 * sin((5 + 2 * (k % 7)) * x); }; G->dst.transform(f, F.data());
+    V r{F[0], F[1], F[2], F[47], DST::eval(sin(0.3), cos(0.3), F.data(), 48)}; G->dst.refine(f, F.data()); cat(r, V{F[0], F[1], F[2], F[47], F[48], F[95], DST::eval(sin(0.3 + k), cos(0.3 + k), F.data(), 96),
+      DST::integral(sin(0.4), cos(0.4), F.data(), 96), DST::integral(sin(0.1 * k), cos(0.1 * k), sin(1.0), cos(1.0), F.data(), 96)}); return r; }, 24);
   // ---- data-file models and their circles; const members that create line / circle objects from a shared solver ----
-  p["gravmodel_obj"] = [](int i) { const GravityModel& m = *G->gm; double gx, gy, gz, dx, dy, dz, Dg, xi, eta, wx, wy, wz, tx, ty, tz;
-    double W = m.Gravity(30.0 + i, 20.0 * i, 1000.0, gx, gy, gz), T = m.Disturbance(30.0 + i, 20.0 * i, 1000.0, dx, dy, dz); m.SphericalAnomaly(30.0 + i, 20.0 * i, 1000.0, Dg, xi, eta);
-    double w = m.W(4.0e6, 3.0e6 + 1.0e5 * i, 4.0e6, wx, wy, wz), t = m.T(4.0e6, 3.0e6 + 1.0e5 * i, 4.0e6, tx, ty, tz);
-    return V{W, gx, gy, gz, T, dx, dy, dz, Dg, xi, eta, w, wx, wy, wz, t, tx, ty, tz, m.GeoidHeight(30.0 + i, 20.0 * i), m.T(4.0e6, 3.0e6, 4.1e6 + i)}; };
-  p["gravcircle_obj"] = [](int i) { const GravityCircle& c = *G->gc; double gx, gy, gz, dx, dy, dz, Dg, xi, eta; double W = c.Gravity(25.0 * i, gx, gy, gz), T = c.Disturbance(25.0 * i, dx, dy, dz);
-    c.SphericalAnomaly(25.0 * i, Dg, xi, eta); return V{W, gx, gy, gz, T, dx, dy, dz, Dg, xi, eta, c.GeoidHeight(25.0 * i), c.T(25.0 * i), c.V(25.0 * i, gx, gy, gz)}; };
-  p["gravmodel_circle"] = [](int i) { GravityCircle c = G->gm->Circle(10.0 + i, 500.0 * i, GravityModel::ALL); double gx, gy, gz; double W = c.Gravity(33.0, gx, gy, gz); return V{W, gx, gy, gz, c.GeoidHeight(33.0)}; };
-  p["magmodel_obj"] = [](int i) { const MagneticModel& m = *G->mm; double bx, by, bz, bxt, byt, bzt, H, F, D, I; m(2001.0 + 3.0 * i, 30.0 + i, 20.0 * i, 1000.0, bx, by, bz, bxt, byt, bzt);
-    MagneticModel::FieldComponents(bx, by, bz, H, F, D, I); double cx, cy, cz; m.FieldGeocentric(2004.0 + i, 4.0e6, 3.0e6, 4.0e6, cx, cy, cz, bxt, byt, bzt); return V{bx, by, bz, bxt, byt, bzt, H, F, D, I, cx, cy, cz}; };
-  p["magcircle_obj"] = [](int i) { double bx, by, bz, bxt, byt, bzt; (*G->mc)(25.0 * i, bx, by, bz, bxt, byt, bzt); return V{bx, by, bz, bxt, byt, bzt}; };
-  p["magmodel_circle"] = [](int i) { MagneticCircle c = G->mm->Circle(2002.0 + 4.0 * i, 10.0 + i, 500.0 * i); double bx, by, bz; c(33.0, bx, by, bz); return V{bx, by, bz}; };
-  p["geod_line_make"] = [](int i) { GeodesicLine l = G->geod.Line(10.0 + i, 20.0, 30.0 + i, Geodesic::ALL), l2 = G->geod.InverseLine(10.0 + i, 20.0, -30.0, 100.0 + i, Geodesic::ALL);
-    double la, lo, az, m, M1, M2, S, la2, lo2; l.Position(1.0e6, la, lo, az, m, M1, M2, S); l2.Position(0.5 * l2.Distance(), la2, lo2); return V{la, lo, az, m, M1, M2, S, la2, lo2, l2.Distance()}; };
-  p["geodex_line_make"] = [](int i) { GeodesicLineExact l = G->geodex.Line(10.0 + i, 20.0, 30.0 + i, GeodesicExact::ALL), l2 = G->geodex.InverseLine(10.0 + i, 20.0, -30.0, 100.0 + i, GeodesicExact::ALL);
-    double la, lo, az, m, M1, M2, S, la2, lo2; l.Position(1.0e6, la, lo, az, m, M1, M2, S); l2.Position(0.5 * l2.Distance(), la2, lo2); return V{la, lo, az, m, M1, M2, S, la2, lo2, l2.Distance()}; };
-  p["rhumb_line_make"] = [](int i) { RhumbLine l = G->rhumb.Line(10.0 + i, 20.0, 30.0 + i), lx = G->rhumbx.Line(10.0 + i, 20.0, 30.0 + i); double la, lo, S, la2, lo2, S2; l.Position(1.0e6, la, lo, S); lx.Position(1.0e6, la2, lo2, S2);
-    return V{la, lo, S, la2, lo2, S2}; };
-  p["ps_obj"] = [](int i) { double x, y, g, k, la, lo; G->ps.Forward(i % 2 == 0, 80.0 - i, 30.0, x, y, g, k); G->ps.Reverse(i % 2 == 0, x, y, la, lo, g, k); return V{x, y, g, k, la, lo}; };
-  p["tmx_obj"] = [](int i) { double x, y, g, k, la, lo; G->tmx.Forward(3.0, 40.0 + i, 5.0, x, y, g, k); G->tmx.Reverse(3.0, x, y, la, lo, g, k); return V{x, y, g, k, la, lo}; };
-  p["ell_obj"] = [](int i) { const Ellipsoid& e = G->ell; return V{e.MeridianDistance(30.0 + i), e.Area(), e.RectifyingLatitude(40.0 + i), e.InverseRectifyingLatitude(40.0 + i), e.ConformalLatitude(20.0 + i),
-    e.InverseConformalLatitude(20.0 + i), e.AuthalicLatitude(50.0 - i), e.InverseAuthalicLatitude(50.0 - i), e.IsometricLatitude(60.0), e.InverseIsometricLatitude(60.0 + i), e.CircleRadius(33.0 + i), e.QuarterMeridian()}; };
-  p["normgrav_obj"] = [](int i) { const NormalGravity& n = G->ng; double gy, gz, gx, gy2, gz2; double u = n.U(7.0e6, 1.0e5 * i, 2.0e6, gx, gy2, gz2); double gg = n.Gravity(40.0 + i, 1000.0, gy, gz);
-    return V{u, gx, gy2, gz2, gg, gy, gz, n.SurfaceGravity(30.0 + i), n.DynamicalFormFactor(2), n.DynamicalFormFactor(4 + 2 * i)}; };
+  p["gravmodel_obj"] = K([](int k) { const GravityModel& m = *G->gm; double gx = 0, gy = 0, gz = 0, dx = 0, dy = 0, dz = 0, Dg = 0, xi = 0, eta = 0, wx = 0, wy = 0, wz = 0, tx = 0, ty = 0, tz = 0, vx = 0, vy = 0, vz = 0, ux = 0, uy = 0, uz = 0, fx = 0, fy = 0;
+    double W = m.Gravity(30.0 + k + SD, 20.0 * k, 1000.0, gx, gy, gz), T = m.Disturbance(30.0 + k, 20.0 * k + SD, 1000.0, dx, dy, dz); m.SphericalAnomaly(30.0 + k, 20.0 * k, 1000.0 + k, Dg, xi, eta);
+    double w = m.W(4.0e6, 3.0e6 + 1.0e5 * k, 4.0e6, wx, wy, wz), t = m.T(4.0e6, 3.0e6 + 1.0e5 * k, 4.0e6, tx, ty, tz), v = m.V(-4.0e6 + 1.0e4 * k, 3.0e6, 4.1e6, vx, vy, vz), u = m.U(4.2e6, 3.0e6, -4.0e6 + 1.0e4 * k, ux, uy, uz),
+      ph = m.Phi(4.0e6 + k, 3.0e6, fx, fy);
+    return V{W, gx, gy, gz, T, dx, dy, dz, Dg, xi, eta, w, wx, wy, wz, t, tx, ty, tz, m.GeoidHeight(30.0 + k, 20.0 * k), m.T(4.0e6, 3.0e6, 4.1e6 + k), v, vx, vy, vz, u, ux, uy, uz, ph, fx, fy, m.GeoidHeight(-90.0, 3.0 * k)}; });
+  p["gravcircle_obj"] = K([](int k) { const GravityCircle& c = *G->gc; double gx = 0, gy = 0, gz = 0, dx = 0, dy = 0, dz = 0, Dg = 0, xi = 0, eta = 0, wx = 0, wy = 0, wz = 0, vx = 0, vy = 0, vz = 0, tx = 0, ty = 0, tz = 0;
+    double W = c.Gravity(25.0 * k + SD, gx, gy, gz), T = c.Disturbance(25.0 * k + 1, dx, dy, dz); c.SphericalAnomaly(25.0 * k + 2, Dg, xi, eta); double w = c.W(-13.0 * k, wx, wy, wz), v = c.V(25.0 * k + 3, vx, vy, vz), t = c.T(7.0 * k, tx, ty, tz);
+    return V{W, gx, gy, gz, T, dx, dy, dz, Dg, xi, eta, c.GeoidHeight(25.0 * k + 4), c.T(25.0 * k + 5), v, vx, vy, vz, w, wx, wy, wz, t, tx, ty, tz}; });
+  p["gravmodel_circle"] = K([](int k) { GravityCircle c = G->gm->Circle(10.0 + k + SD, 500.0 * k, GravityModel::ALL), c2 = G->gm->Circle(-60.0 + k, 100.0, GravityModel::GEOID_HEIGHT); double gx = 0, gy = 0, gz = 0; double W = c.Gravity(33.0 + k, gx, gy, gz);
+    return V{W, gx, gy, gz, c.GeoidHeight(33.0), c2.GeoidHeight(-100.0 + 3 * k)}; });
+  p["magmodel_obj"] = K([](int k) { const MagneticModel& m = *G->mm; double bx = 0, by = 0, bz = 0, bxt = 0, byt = 0, bzt = 0, H = 0, F = 0, D = 0, I = 0, Ht = 0, Ft = 0, Dt = 0, It = 0, ax = 0, ay = 0, az = 0;
+    m(2001.0 + 1.5 * k + SD, 30.0 + k, 20.0 * k, 1000.0, bx, by, bz, bxt, byt, bzt); m(1995.0 + k, -30.0 - k, -15.0 * k, 5000.0 + k, ax, ay, az);
+    MagneticModel::FieldComponents(bx, by, bz, H, F, D, I); V r{bx, by, bz, bxt, byt, bzt, ax, ay, az, H, F, D, I}; MagneticModel::FieldComponents(bx, by, bz, bxt, byt, bzt, H, F, D, I, Ht, Ft, Dt, It); cat(r, V{H, F, D, I, Ht, Ft, Dt, It});
+    double cx = 0, cy = 0, cz = 0; m.FieldGeocentric(2004.0 + k, 4.0e6, 3.0e6 + 1.0e4 * k, 4.0e6, cx, cy, cz, bxt, byt, bzt); cat(r, V{cx, cy, cz, bxt, byt, bzt}); return r; });
+  p["magcircle_obj"] = K([](int k) { const MagneticCircle& c = *G->mc; double bx = 0, by = 0, bz = 0, bxt = 0, byt = 0, bzt = 0, ax = 0, ay = 0, az = 0, cx = 0, cy = 0, cz = 0, cxt = 0, cyt = 0, czt = 0;
+    c(25.0 * k + SD, bx, by, bz, bxt, byt, bzt); c(-11.0 * k, ax, ay, az); c.FieldGeocentric(25.0 * k + 0.1 + SD, cx, cy, cz, cxt, cyt, czt); return V{bx, by, bz, bxt, byt, bzt, ax, ay, az, cx, cy, cz, cxt, cyt, czt}; });
+  p["magmodel_circle"] = K([](int k) { MagneticCircle c = G->mm->Circle(2002.0 + 1.5 * k + SD, 10.0 + k, 500.0 * k); double bx = 0, by = 0, bz = 0, cx = 0, cy = 0, cz = 0, cxt = 0, cyt = 0, czt = 0; c(33.0 + k, bx, by, bz);
+    c.FieldGeocentric(-33.0 + k, cx, cy, cz, cxt, cyt, czt); return V{bx, by, bz, cx, cy, cz, cxt, cyt, czt}; });
+  p["geod_line_make"] = K([](int k) { return makelines<Geodesic, GeodesicLine>(G->geod, k); });
+  p["geodex_line_make"] = K([](int k) { return makelines<GeodesicExact, GeodesicLineExact>(G->geodex, k); });
+  p["rhumb_line_make"] = K([](int k) { RhumbLine l = G->rhumb.Line(10.0 + k + SD, 20.0, 30.0 + k), lx = G->rhumbx.Line(10.0 + k, 20.0, 30.0 + k + SD); V r = rhumbalong(l, k); cat(r, rhumbalong(lx, k)); return r; });
+  p["ps_obj"] = K([](int k) { return polar(G->ps, k); });
+  p["tmx_obj"] = K([](int k) { return tmerc(G->tmx, k); });
+  p["ell_obj"] = K([](int k) { return ellipsoid(G->ell, k); });
+  p["normgrav_obj"] = K([](int k) { return normgrav(G->ng, k); });
   return p;
 }
 
@@ -180,26 +448,44 @@ static bool same(const V& a, const V& b) {
   for (size_t i = 0; i < a.size(); ++i) if (vt::bits(a[i]) != vt::bits(b[i]) && !(std::isnan(a[i]) && std::isnan(b[i]))) return false;
   return true;
 }
+// a call that throws is an observation too (the same call must throw when executed alone)
+static V call(const Prog& f, int t, int i) {
+  try { return f(t, i); }
+  catch (const std::exception& e) { if (getenv("DRV_THREADS_DEBUG")) fprintf(stderr, "exception t=%d i=%d: %s\n", t, i, e.what()); V r{-7.0e300}; pushs(r, e.what()); return r; }
+}
+static string names(unsigned mask) {
+  string s = "["; bool first = true;
+  for (int j = 0; j < NACC; ++j) if (mask & (1u << j)) { if (!first) s += ","; first = false; s += string("\"") + ACC[j] + "\""; }
+  return s + "]";
+}
 
 int main(int argc, char** argv) {
-  if (argc < 6) { fprintf(stderr, "usage: drv_threads progA progB cold nthreads dir | list\n"); return 2; }
+  if (argc < 6) { fprintf(stderr, "usage: drv_threads progA progB cold nthreads dir [seed] | list\n"); return 2; }
   string A = argv[1], B = argv[2]; bool cold = atoi(argv[3]) != 0; int nt = atoi(argv[4]); string dir = argv[5];
+  int seed = argc > 6 ? atoi(argv[6]) : 1; NT = nt; SD = 0.001 * ((seed * 37) % 100);
+  g_phase = 0;
   Shared shared(dir); G = &shared;
   auto P = programs();
   if (!P.count(A) || !P.count(B)) { vt::Rec r; r.str("e", "conc").str("a", A).str("b", B).b("cold", cold).b("known", false).b("same", false); r.emit(); return 0; }
-  const int ITER = 3;
-  if (!cold) for (int i = 0; i < ITER; ++i) { P[A](i); P[B](i); }     // warm: first touches happen before the threads start
-  vector<vector<V>> res(nt, vector<V>(ITER));
+  auto prog = [&](int t) -> const Entry& { return P[(t % 2 == 0) ? A : B]; };
+  printf("{\"e\":\"start\"}\n"); fflush(stdout);     // set-up is complete (a failure before this line is not an observation of the run)
+  if (!cold) for (int t = 0; t < nt; ++t) for (int i = 0; i < min(prog(t).iters, 32); ++i) call(prog(t).f, t, i);   // warm: first touches happen before the threads start
+  vector<vector<V>> res(nt);
+  for (int t = 0; t < nt; ++t) res[t].resize(prog(t).iters);
   atomic<int> ready(0);
   vector<thread> th;
+  g_phase = 1;
   for (int t = 0; t < nt; ++t) th.emplace_back([&, t] {
-    const function<V(int)>& f = P[(t % 2 == 0) ? A : B];
+    const Entry& e = prog(t);
     ready.fetch_add(1); while (ready.load() < nt) { }                   // start together
-    for (int i = 0; i < ITER; ++i) res[t][i] = f(i);
+    for (int i = 0; i < e.iters; ++i) res[t][i] = call(e.f, t, i);
   });
   for (auto& x : th) x.join();
-  bool ok = true;
-  for (int t = 0; t < nt; ++t) for (int i = 0; i < ITER; ++i) ok = ok && same(res[t][i], P[(t % 2 == 0) ? A : B](i));   // solo, afterwards
-  vt::Rec r; r.str("e", "conc").str("a", A).str("b", B).b("cold", cold).b("known", true).b("same", ok).i("nt", nt); r.emit();
+  g_phase = 2;
+  long long nmis = 0, ncall = 0, nexc = 0, ft = -1, fi = -1;
+  for (int t = 0; t < nt; ++t) for (int i = 0; i < prog(t).iters; ++i) { ++ncall; V solo = call(prog(t).f, t, i); if (!solo.empty() && solo[0] == -7.0e300) ++nexc;   // solo, afterwards
+    if (!same(res[t][i], solo)) { if (!nmis) { ft = t; fi = i; } ++nmis; } }
+  vt::Rec r; r.str("e", "conc").str("a", A).str("b", B).b("cold", cold).b("known", true).b("same", nmis == 0).i("nt", nt).i("ncall", ncall).i("nmis", nmis).i("nexc", nexc).i("ft", ft).i("fi", fi)
+    .raw("pre", names(g_touch[0].load())).raw("used", names(g_touch[1].load())); r.emit();
   return 0;
 }
